@@ -155,7 +155,7 @@ func ruleC17Confinement(c *Ctx) {
 				if fa, ok := in.(*ssa.FieldAddr); ok {
 					fi := fieldOfAddr(fa)
 					if fi.Struct != nil && fi.Struct.Obj().Pkg() != nil && fi.Struct.Obj().Pkg().Path() == modPath+"/sizes" {
-						switch fi.Struct.Obj().Name() {
+						switch tname(fi.Struct.Obj()) {
 						case "Graph", "HistorySize", "treeRecord", "tagRecord", "InOrderPathResolver":
 							bad = true
 							c.violate("C17.confinement", name+":touches:"+fi.String(), fa.Pos(), name, "a goroutine other than the consumer touches "+fi.String())
@@ -205,19 +205,19 @@ func classifyCapture(t types.Type, inPkg string) (string, bool) {
 		}
 		switch {
 		case pkg == modPath+"/git":
-			return "iterator/" + n.Obj().Name(), true
+			return "iterator/" + tname(n.Obj()), true
 		case pkg == modPath+"/sizes":
-			return "aggregation state " + n.Obj().Name(), false
+			return "aggregation state " + tname(n.Obj()), false
 		case pkg == "time":
 			return "ticker", true
 		case pkg == modPath+"/meter":
 			return "meter", inPkg == modPath+"/meter"
 		}
-		return "pointer to " + n.Obj().Name(), true
+		return "pointer to " + tname(n.Obj()), true
 	case *types.Struct:
 		n := namedOf(t)
 		if n != nil && n.Obj().Pkg() != nil && n.Obj().Pkg().Path() == modPath+"/sizes" {
-			return "aggregation state " + n.Obj().Name(), false
+			return "aggregation state " + tname(n.Obj()), false
 		}
 		_ = u
 		return "struct", true
@@ -287,7 +287,7 @@ func (c *Ctx) checkParentWrites(g *ssa.Go, fn *ssa.Function) {
 			for {
 				if fa, ok := addr.(*ssa.FieldAddr); ok {
 					if fieldName == "" {
-						fieldName = fieldOfAddr(fa).Var.Name()
+						fieldName = vname(fieldOfAddr(fa).Var)
 					}
 					addr = fa.X
 					continue
@@ -307,10 +307,10 @@ func (c *Ctx) checkParentWrites(g *ssa.Go, fn *ssa.Function) {
 			readsField := false
 			for _, f := range append([]*ssa.Function{fn}, fn.AnonFuncs...) {
 				allInstrs(f, func(in2 ssa.Instruction) {
-					if fa, ok := in2.(*ssa.FieldAddr); ok && fieldOfAddr(fa).Var.Name() == fieldName {
+					if fa, ok := in2.(*ssa.FieldAddr); ok && vname(fieldOfAddr(fa).Var) == fieldName {
 						readsField = true
 					}
-					if fv, ok := in2.(*ssa.Field); ok && fieldOfVal(fv).Var.Name() == fieldName {
+					if fv, ok := in2.(*ssa.Field); ok && vname(fieldOfVal(fv).Var) == fieldName {
 						readsField = true
 					}
 				})
@@ -691,7 +691,7 @@ func ruleC18Lockset(c *Ctx) {
 		li := c.locksets(f)
 		isCtor := false
 		allInstrs(f, func(in ssa.Instruction) {
-			if al, ok := in.(*ssa.Alloc); ok && isNamed(al.Type().Underlying().(*types.Pointer).Elem(), modPath+"/meter", mt.Obj().Name()) {
+			if al, ok := in.(*ssa.Alloc); ok && isNamed(al.Type().Underlying().(*types.Pointer).Elem(), modPath+"/meter", tname(mt.Obj())) {
 				isCtor = true
 			}
 		})
@@ -751,20 +751,20 @@ func ruleC18Lockset(c *Ctx) {
 				}
 			}
 		}
-		key := "field:" + fv.Name()
+		key := "field:" + vname(fv)
 		switch {
 		case len(as) == 0:
 			c.present("C18.lockset", key, token.NoPos, "never accessed")
 		case nAtom == len(as):
 			c.hold("C18.lockset", key, token.NoPos, fmt.Sprintf("accessed only through sync/atomic (%d sites)", nAtom))
 		case nAtom > 0:
-			c.violate("C18.lockset", key, posOf(as[0].in), fnName(as[0].in.Parent()), "field "+fv.Name()+" is accessed both atomically and with plain loads/stores")
+			c.violate("C18.lockset", key, posOf(as[0].in), fnName(as[0].in.Parent()), "field "+vname(fv)+" is accessed both atomically and with plain loads/stores")
 		case nWriteOutsideCtor == 0:
 			c.hold("C18.lockset", key, token.NoPos, fmt.Sprintf("immutable after construction (%d reads)", len(as)))
 		case nUnlocked == 0:
 			c.hold("C18.lockset", key, token.NoPos, fmt.Sprintf("every access outside the constructor holds the meter's lock (%d sites)", len(as)))
 		default:
-			c.violate("C18.lockset", key, posOf(firstBad), fnName(firstBad.Parent()), fmt.Sprintf("field %s is written after construction and %d access(es) do not hold the meter's lock: data race between the ticker goroutine and the worker", fv.Name(), nUnlocked))
+			c.violate("C18.lockset", key, posOf(firstBad), fnName(firstBad.Parent()), fmt.Sprintf("field %s is written after construction and %d access(es) do not hold the meter's lock: data race between the ticker goroutine and the worker", vname(fv), nUnlocked))
 		}
 	}
 	// ticker goroutine: identity test guards every write, inside one critical section
@@ -917,7 +917,7 @@ func ruleC18Bracket(c *Ctx) {
 		if !ok || !call.Call.IsInvoke() || !isNamed(call.Call.Value.Type(), modPath+"/meter", "Progress") {
 			return ""
 		}
-		return call.Call.Method.Name()
+		return mname(call.Call.Method)
 	}
 	// forward dataflow over {idle, active}
 	const (
@@ -1012,10 +1012,10 @@ func ruleC18Bracket(c *Ctx) {
 		for b := range l.Blocks {
 			for _, ins := range b.Instrs {
 				if call, ok := ins.(*ssa.Call); ok {
-					if cal := call.Call.StaticCallee(); cal != nil && strings.HasPrefix(cal.Name(), "Register") {
+					if cal := call.Call.StaticCallee(); cal != nil && strings.HasPrefix(refName(cal), "Register") {
 						hasWork = true
 					}
-					if call.Call.IsInvoke() && strings.HasPrefix(call.Call.Method.Name(), "Record") {
+					if call.Call.IsInvoke() && strings.HasPrefix(mname(call.Call.Method), "Record") {
 						hasWork = true
 					}
 				}
@@ -1062,7 +1062,7 @@ func ruleC18Bracket(c *Ctx) {
 	// Add has no caller
 	for _, fn := range c.ModFns {
 		allInstrs(fn, func(in ssa.Instruction) {
-			if call, ok := in.(*ssa.Call); ok && call.Call.IsInvoke() && call.Call.Method.Name() == "Add" && isNamed(call.Call.Value.Type(), modPath+"/meter", "Progress") && fn != f {
+			if call, ok := in.(*ssa.Call); ok && call.Call.IsInvoke() && mname(call.Call.Method) == "Add" && isNamed(call.Call.Value.Type(), modPath+"/meter", "Progress") && fn != f {
 				c.violate("C18.bracket", "add@"+fnName(fn), call.Pos(), fnName(fn), "Progress.Add is called")
 			}
 		})
@@ -1168,7 +1168,7 @@ func ruleC17Select(c *Ctx) {
 			data := 0
 			for _, st := range sel.States {
 				isDone := false
-				if call, ok := c.resolve(st.Chan).(*ssa.Call); ok && call.Call.IsInvoke() && call.Call.Method.Name() == "Done" {
+				if call, ok := c.resolve(st.Chan).(*ssa.Call); ok && call.Call.IsInvoke() && mname(call.Call.Method) == "Done" {
 					isDone = true
 				}
 				if !isDone {
